@@ -11,7 +11,7 @@ Definition enc_on (o : option name) : list Z := match o with None => [0] | Some 
 Definition enc_quals (q : list (name * Z)) : list Z :=
   zn (List.length q) :: flat_map (fun x => [fst x; snd x]) q.
 Definition enc_mt (m : mt) : Z :=
-  match m with MProp => 1 | MRange => 2 | MColl => 3 | MList => 4 | MFile => 5 | MBlob => 6 end.
+  match m with MProp => 1 | MRange => 2 | MColl => 3 | MList => 4 | MFile => 5 | MBlob => 6 | MRel => 7 | MARel => 8 end.
 Definition enc_val (v : attv) : list Z :=
   match v with ANone => [0] | APath p => 1 :: zn (String.length p) :: codes p | AData c => [2; zn c] end.
 Fixpoint enc_elem (e : elem) : list Z :=
